@@ -263,3 +263,55 @@ func ValidHostname(s string) bool {
 	}
 	return labels >= 2
 }
+
+// FirstPacketEnd is the reference for how much of a peer's byte stream belongs to its "first packet" as far
+// as a Cloak server may look before deciding (README/protocol: a TLS record starting with 0x16, or an HTTP
+// request head starting with 'G', read into a 3000-byte buffer). It returns the number of bytes consumed and
+// whether the stream given so far completes the first packet.
+func FirstPacketEnd(stream []byte) (n int, complete bool) {
+	const bufSize = 3000
+	if len(stream) == 0 {
+		return 0, false
+	}
+	switch stream[0] {
+	case 0x16:
+		if len(stream) < 5 {
+			return len(stream), false
+		}
+		l := int(binary.BigEndian.Uint16(stream[3:5]))
+		if l+5 > bufSize {
+			return 5, true
+		}
+		if len(stream) < 5+l {
+			return len(stream), false
+		}
+		return 5 + l, true
+	case 0x47:
+		pos := 1
+		for {
+			if pos >= bufSize {
+				return bufSize, true
+			}
+			// next line: up to '\n' or to the end of the buffer
+			end := -1
+			for i := pos; i < len(stream) && i < bufSize; i++ {
+				if stream[i] == '\n' {
+					end = i + 1
+					break
+				}
+			}
+			if end < 0 {
+				if len(stream) >= bufSize {
+					return bufSize, true
+				}
+				return len(stream), false
+			}
+			if end-pos == 2 && stream[pos] == '\r' {
+				return end, true
+			}
+			pos = end
+		}
+	default:
+		return 1, true
+	}
+}
